@@ -569,6 +569,8 @@ where
 /// Wall-clock watchdog: if the process is still alive after `secs`, it prints an INCONCLUSIVE line
 /// and exits with 2. A watchdog firing is never a violation.
 pub fn watchdog(prop: &str, secs: u64) {
+    // (a run under an instrumenting tool takes its own time: VERIF_WATCHDOG_SECS overrides)
+    let secs = std::env::var("VERIF_WATCHDOG_SECS").ok().and_then(|v| v.parse().ok()).unwrap_or(secs);
     let prop = prop.to_string();
     std::thread::spawn(move || {
         std::thread::sleep(std::time::Duration::from_secs(secs));
